@@ -40,6 +40,7 @@ type Profile struct {
 	BulkLogsP      float64          // probability that a transaction is a bulk reflog import (60-160 entries of one ref)
 	DeepInitP      float64          // probability that the initial stack is 12-23 uncompacted tables deep
 	InitMin        int              // the initial stack has at least this many transactions
+	WidePopularP   float64          // probability (runs with 1024-byte blocks only) that the history ends with a transaction whose table has hundreds of ref blocks holding one object id
 	ShortRangesP   float64          // probability that a range compaction covers just 2-3 tables at a random position of a deep stack
 }
 
@@ -231,6 +232,43 @@ func (g *genCtx) txn() TxnSpec {
 	return tx
 }
 
+// wideTxn: one object id (as value, every fifth time as peeled value) in
+// the first N ref blocks of a table of N+20 blocks: object-index position
+// lists of every length class (count in the key bits, one-byte count,
+// two-byte count), N biased to the class boundaries. Names carry a long
+// incompressible suffix so that a 1024-byte block holds exactly five
+// records (measured) and N blocks cost 5N records. Placed at the end of a
+// history: the read oracles scan the table many times.
+func (g *genCtx) wideTxn() TxnSpec {
+	r := g.r
+	g.nextID++
+	tx := TxnSpec{ID: g.nextID}
+	nblocks := 250 + r.Intn(21)
+	if r.Bool(0.25) {
+		nblocks = r.Pick(3, 7, 8, 9, 127, 128, 129, 300)
+	}
+	k := nblocks*5 - r.Intn(5)
+	n := (nblocks + 20) * 5
+	tag := 1 + r.Intn(2)
+	for i := 0; i < n; i++ {
+		b := make([]byte, 0, 80)
+		x := uint64(i)
+		for len(b) < 75 {
+			x = simrt.Mix64(x + 1)
+			b = append(b, byte(x), byte(x>>8), byte(x>>16), byte(x>>24), byte(x>>32))
+		}
+		rs := RefSpec{Name: fmt.Sprintf("refs/wide/%05d-%x", i, b[:75]), Kind: RefVal}
+		if i < k {
+			rs.OidTag = tag
+			if i%5 == 0 {
+				rs.Kind, rs.OidTag, rs.PeelTag = RefPeeled, 0, tag
+			}
+		}
+		tx.Refs = append(tx.Refs, rs)
+	}
+	return tx
+}
+
 func (g *genCtx) exp() *ExpSpec {
 	r := g.r
 	e := &ExpSpec{}
@@ -382,6 +420,9 @@ func GenTurn(prop string, seed uint64, p *Profile) *RunSpec {
 		for h := 0; h < nh; h++ {
 			ops = append(ops, OpSpec{Kind: OpAbort, H: h})
 		}
+	}
+	if p.WidePopularP > 0 && g.cfg.BlockSize == 1024 && r.Bool(p.WidePopularP) {
+		ops = append(ops, OpSpec{Kind: OpUpToDate, H: 0}, OpSpec{Kind: OpReopen, H: 0, Auto: false}, OpSpec{Kind: OpAdd, H: 0, Txns: []TxnSpec{g.wideTxn()}})
 	}
 	spec.Tasks = []TaskSpec{{Name: "turn", Ops: ops}}
 	return spec
